@@ -1026,6 +1026,29 @@ static std::ostream& print_double(std::ostream& os, double value)
 }
 
 /**
+ * True for a process-set lookup "P(e1, .., en)": the builder stores it as ARRAY(..ARRAY(P, e1).., en)
+ * (ExpressionBuilder::expr_call_end), but the parser builds that tree from the call syntax only.
+ */
+static bool is_process_set_lookup(const expression_t& expr)
+{
+    if (expr.get_kind() == ARRAY)
+        return is_process_set_lookup(expr.get(0));
+    return expr.get_kind() == IDENTIFIER && expr.get_symbol() != symbol_t() &&
+           expr.get_symbol().get_type().is(PROCESS_SET);
+}
+
+/** Prints the process-set lookup "P(e1, .., en" without the closing parenthesis. */
+static std::ostream& print_lookup(std::ostream& os, bool old, const expression_t& expr)
+{
+    if (expr.get_kind() != ARRAY)
+        return expr.print(os, old) << '(';
+    print_lookup(os, old, expr.get(0));
+    if (expr.get(0).get_kind() == ARRAY)
+        os << ", ";
+    return expr.get(1).print(os, old);
+}
+
+/**
  * Prints "name:type" for the variable bound by a quantifier, with the type in declaration syntax. The builder
  * stores the type under a const prefix, which is not part of the binder syntax.
  */
@@ -1327,8 +1350,12 @@ std::ostream& expression_t::print(std::ostream& os, bool old) const
         break;
 
     case ARRAY:
-        embrace_strict(os, old, get(0), precedence);
-        get(1).print(os << '[', old) << ']';
+        if (is_process_set_lookup(*this)) {
+            print_lookup(os, old, *this) << ')';
+        } else {
+            embrace_strict(os, old, get(0), precedence);
+            get(1).print(os << '[', old) << ']';
+        }
         break;
 
     case UNARY_MINUS: embrace(os << '-', old, get(0), precedence); break;
